@@ -3,7 +3,7 @@ CONSTANTS
   Inst = {a, b}
   MaxFiles = 4
   ReloadOnAcquire = TRUE
-  AtomicReload = TRUE
+  AtomicReload = FALSE
   MaxZombie = 1
 INVARIANTS TypeOK NoUnmanagedFile NoOrphanAtRest NeverDeletesLiving
 CHECK_DEADLOCK FALSE
